@@ -124,7 +124,7 @@ Task *Kernel::new_task(Proc *p, bool native, std::function<void()> entry) {
   getcontext(&t->ctx);
   t->ctx.uc_stack.ss_sp = t->stack; t->ctx.uc_stack.ss_size = t->stack_sz; t->ctx.uc_link = nullptr;
   makecontext(&t->ctx, (void (*)())trampoline, 0);
-  uint64_t x = mix64(ch.rng.s[0] ^ 0x5eed, (uint64_t)t->id); t->prio = x;
+  uint64_t x = mix64(ch.rng.s[0] ^ 0x5eed, (uint64_t)t->id); t->prio = (1ULL << 62) | (x >> 2);
   p->task = t;
   tasks.push_back(t);
   return t;
@@ -142,6 +142,7 @@ void Kernel::free_task(Task *t) {
 }
 
 static ucontext_t *g_resume_ctx = nullptr;
+static char **g_host_environ = nullptr;
 
 void Kernel::switch_to_task(Task *t) {
   cur = t;
@@ -154,6 +155,7 @@ void Kernel::switch_to_task(Task *t) {
   swapcontext(&sched_ctx, target);
   __sanitizer_finish_switch_fiber(fake, nullptr, nullptr);
   if (cur && cur->inst) cur->inst->environ_ = environ;
+  environ = g_host_environ;
   cur = nullptr;
 }
 
@@ -222,10 +224,13 @@ void Kernel::yield_point() {
   Task *next = nullptr;
   if (knobs.pct) {
     bool change = std::find(knobs.pct_points.begin(), knobs.pct_points.end(), steps) != knobs.pct_points.end();
-    if (change) t->prio = steps;  // drop to (unique) low priority: later change points are lower than any initial priority
+    if (change) t->prio = (1ULL << 61) - steps;  // drop below every initial priority and below every earlier demotion
+    // fairness: PCT assumes terminating threads; a process that polls (select/reopen loop while a peer holds a FIFO open)
+    // would starve the peer forever under strict priorities. After a long uninterrupted streak it yields its priority.
+    if (++t->streak > 120) { t->prio = (1ULL << 61) - steps; t->streak = 0; probe("pct_fairness_demotion"); }
     Task *best = t;
     for (Task *o : others) if (o->prio > best->prio) best = o;
-    if (best != t) next = best;
+    if (best != t) { next = best; t->streak = 0; }
   } else {
     double st = knobs.stick; size_t n = others.size();
     uint32_t c = ch.choose((uint32_t)n + 1, CH_SCHED, [&](Rng &r) -> uint32_t { if (r.chance(st)) return 0; return 1 + (uint32_t)r.below(n); });
@@ -257,6 +262,8 @@ static void restore_vfork(Kernel *k, Task *t, int childpid) {
 
 void Kernel::run() {
   K = this;
+  g_preselected = nullptr; g_resume_ctx = nullptr;
+  if (!g_host_environ) g_host_environ = environ;
   while (!stop) {
     // sweep dead tasks (killed C tasks)
     for (size_t i = 0; i < tasks.size();) { Task *t = tasks[i]; if (t->st == Task::DEAD && t != cur) { free_task(t); } else i++; }
@@ -313,6 +320,7 @@ void Kernel::run() {
     req = R_NONE;
   }
   // tear down whatever is left
+  g_preselected = nullptr;
   std::vector<Task *> left = tasks;
   for (Task *t : left) {
     if (t->native && t->started && t->st != Task::DEAD) {
@@ -377,13 +385,14 @@ void Kernel::finish_exec(Proc *p, Inode *exe, const std::vector<std::string> &ar
   Instance *in = new Instance; in->img = img; in->saved = img->pristine;
   Task *t = new_task(p, false, [this, p, img]() {
     // argv/envp live in the instance heap
+    auto ralloc = [this](size_t sz) { void *q = malloc(sz ? sz : 1); cur->inst->heap.insert(q); return q; };  // not subject to fault injection
     size_t n = p->argv_s.size();
-    char **av = (char **)sys_malloc((n + 1) * sizeof(char *));
-    for (size_t i = 0; i < n; i++) { av[i] = (char *)sys_malloc(p->argv_s[i].size() + 1); memcpy(av[i], p->argv_s[i].c_str(), p->argv_s[i].size() + 1); }
+    char **av = (char **)ralloc((n + 1) * sizeof(char *));
+    for (size_t i = 0; i < n; i++) { av[i] = (char *)ralloc(p->argv_s[i].size() + 1); memcpy(av[i], p->argv_s[i].c_str(), p->argv_s[i].size() + 1); }
     av[n] = nullptr;
     size_t m = p->env_s.size();
-    char **ev = (char **)sys_malloc((m + 1) * sizeof(char *));
-    for (size_t i = 0; i < m; i++) { ev[i] = (char *)sys_malloc(p->env_s[i].size() + 1); memcpy(ev[i], p->env_s[i].c_str(), p->env_s[i].size() + 1); }
+    char **ev = (char **)ralloc((m + 1) * sizeof(char *));
+    for (size_t i = 0; i < m; i++) { ev[i] = (char *)ralloc(p->env_s[i].size() + 1); memcpy(ev[i], p->env_s[i].c_str(), p->env_s[i].size() + 1); }
     ev[m] = nullptr;
     environ = ev;
     int rc = img->main_fn((int)n, av);
